@@ -32,7 +32,8 @@ StepOf(s, r) == IF Handler THEN HStep(s, r, K) ELSE Step(s, r, K)
 
 \* JSON arrays arrive as sequences: turn them into the sets Node.tla uses
 
-Abs(p) == [allow |-> ToSet(p.allow), inv |-> ToSet(p.inv), mark |-> p.mark, chans |-> ToSet(p.chans), fee |-> p.fee]
+Abs(p) == [allow |-> ToSet(p.allow), inv |-> ToSet(p.inv), mark |-> p.mark, chans |-> ToSet(p.chans), fee |-> p.fee,
+           iss |-> IF "iss" \in DOMAIN p THEN ToSet(p.iss) ELSE {}]
 RespOf(e) == [ok |-> e[3] = 1, flag |-> e[4]]
 
 VARIABLES node, g, last
